@@ -77,7 +77,7 @@ CHECKS = {
         ref="5 C15", note=ALGO_NOTE + " Baselines are compared with the float64 value of the RTT (identical below 2^53)."),
     "C16": dict(
         technique="recorded sample / registration sequences of all limit implementations validated by spec/LimitTrace.tla (class notify); exact AIMD model carries the notified value (invariant Notified) and is replayed on the real AIMDLimit",
-        text="For every listener registered (0-3, some registered late) the contract requires a call whenever the reported estimate changed and that the last value delivered equals EstimatedLimit afterwards, on every recorded sample of AIMD, Vegas, Gradient, Gradient2, bare and through the traced and windowed wrappers; the windowed wrapper must report its delegate's estimate (WindowedTrace). The windowed driver moves the delegate's estimate without the wrapper in one call of ten; two samples racing with the first parked inside a listener must leave the listener's last value equal to the estimate.",
+        text="For every listener registered (0-3, some registered late) the contract requires a call whenever the reported estimate changed and that the last value delivered equals EstimatedLimit afterwards, on every recorded sample of AIMD, Vegas, Gradient, Gradient2, bare and through the traced and windowed wrappers; the windowed wrapper must report its delegate's estimate (WindowedTrace). The windowed driver moves the delegate's estimate without the wrapper in one call of ten; two samples racing with the first parked inside a listener must leave the listener's last value equal to the estimate. The settable limit (Set records: the estimate is the value set, every listener told; no sample moves it) and the fixed limit are driven bare and behind both wrappers, and bursts of concurrent explicit sets must leave the last value delivered equal to the estimate.",
         ref="5 C16", note=ALGO_NOTE),
     "C18": dict(
         technique="TLA+ contract of the measurement primitives as a trace acceptor (spec/MeasureTrace.tla) on exactly encoded float64 bit patterns; the sample-window fold is additionally part of the Limiter contract whose full state graph is replayed on the real limiter",
@@ -89,7 +89,7 @@ CHECKS = {
         ref="5 C14", note="Interceptors are stateless, so sequences are independent operations; no network; the stream classifiers are taken as named (RecvMsg -> server stream classifier, SendMsg -> client stream classifier)."),
     "C20": dict(
         technique="implementation-shaped TLA+ model of the registries' poller life cycle (spec/Registry.tla) model-checked by TLC with the as-delivered and flag-only variants as negative configurations; recorded Start/Stop/Register/advance/sample sequences of both bundled registries on a virtual clock validated by TLC against spec/RegistryTrace.tla; emission checked through the Limiter contract (in-flight sample at the admission decision, limit gauge)",
-        text="TLC checks AtMostOnePoller, PollOnlyWhileStarted, StopTerminates (no deadlock with a poll in progress) and NoPollerAfterStop for sequential and two concurrent callers; the code as delivered (started never set) and the naive repair (flag only: deadlock) must fail. Real go-metrics and Datadog registries (statsd client writing to a buffer) are driven through seeded call sequences in a synctest bubble: polls per gauge per ticker instant, forwarding of distribution/timing/count samples to the backend metric of the right kind under the prefixed name, and a poller left after the last Stop are compared with the contract after every call. Every processed sample of every limit algorithm (probes included) emits one RTT, one in-flight and a drop increment iff drop (LimitTrace class metrics).",
+        text="TLC checks AtMostOnePoller, PollOnlyWhileStarted, StopTerminates (no deadlock with a poll in progress) and NoPollerAfterStop for sequential and two concurrent callers; the code as delivered (started never set) and the naive repair (flag only: deadlock) must fail. Real go-metrics and Datadog registries (statsd client writing to a buffer) are driven through seeded call sequences in a synctest bubble: polls per gauge per ticker instant, forwarding of distribution/timing/count samples to the backend metric of the right kind under the prefixed name, and a poller left after the last Stop are compared with the contract after every call. Every processed sample of every limit algorithm (probes included) emits one RTT, one in-flight and a drop increment iff drop (LimitTrace class metrics). A grant by a partitioned strategy emits one in-flight sample tagged with the partition charged, valued at that partition's count (Partition contract); in free-running concurrent histories of the simple and precise strategies the sample of every acquire must be the count at the call's linearisation point (GateTrace with CheckN).",
         ref="5 C20", note="Sequential callers in the recorded sequences; virtual clock; per-sample emission of the limit algorithms is covered by the limit traces."),
     "C19": dict(
         technique=WRAP_TECH + "; free-running pool scenarios (fixed and generic pools, FIFO/LIFO/random) with 'everyone is served' runs",
